@@ -1,17 +1,55 @@
-//! Seam between `cdshealpix`'s two lazily initialised tables and the verification engines.
-//! Two mutually exclusive flavours, selected by a cargo feature of this crate (forwarded by the
-//! shadow manifest of `cdshealpix`):
-//!   * `sim`   -- engine B: shuttle coroutines, instrumented `Slots`/`Once`, happens-before monitor;
-//!   * `count` -- engine A': real `std` primitives and plain arrays, construction counters only.
+//! Seam between `cdshealpix`'s lazily initialised state and the verification engines, AND a
+//! facade for `std`: the guarded build of the crate contains `extern crate verif_rt as std;`, so
+//! every `std::...` path in the code under test resolves through this crate.  Two mutually
+//! exclusive flavours, selected by a cargo feature (forwarded by the shadow manifest):
+//!   * `sim`   -- engine B: shuttle coroutines; `std::sync::Once`, `std::sync::atomic::*`,
+//!                `Mutex`/`RwLock`/`Condvar`/`Barrier`, `std::thread::{yield_now, park, current, sleep}`
+//!                and `std::hint::spin_loop` are replaced by models the simulator controls; the two
+//!                tables are instrumented `Slots`; everything else is the real `std`;
+//!   * `count` -- engine A': everything is the real `std` (pure re-export), plain arrays,
+//!                construction counters only.
 
 #[cfg(all(feature = "sim", feature = "count"))]
 compile_error!("verif_rt: features `sim` and `count` are mutually exclusive");
+
+// ---- the std facade: everything not overridden below is the real thing
+pub use ::std::*;
 
 #[cfg(feature = "sim")]
 #[path = "sim.rs"]
 mod sim_impl;
 #[cfg(feature = "sim")]
 pub use sim_impl::*;
+#[cfg(feature = "sim")]
+pub(crate) use sim_impl::sim_atomics_support_impl as sim_atomics_support;
+#[cfg(feature = "sim")]
+#[path = "atomics.rs"]
+mod atomics_impl;
+
+#[cfg(feature = "sim")]
+pub mod sync {
+    pub use ::std::sync::*;
+    pub use super::sim_impl::Once;
+    pub use shuttle::sync::{Barrier, Condvar, Mutex, MutexGuard, RwLock, RwLockReadGuard, RwLockWriteGuard};
+    pub mod atomic {
+        pub use super::super::atomics_impl::*;
+    }
+}
+
+#[cfg(feature = "sim")]
+pub mod thread {
+    pub use ::std::thread::*;
+    pub use shuttle::thread::{current, park, sleep, yield_now, Thread, ThreadId};
+}
+
+#[cfg(feature = "sim")]
+pub mod hint {
+    pub use ::std::hint::*;
+    /// A spin-wait must let the simulator run the thread being waited for.
+    pub fn spin_loop() {
+        shuttle::thread::yield_now();
+    }
+}
 
 #[cfg(feature = "count")]
 #[path = "count.rs"]
